@@ -1,53 +1,10 @@
 //! C12 — ClientHello random extraction and transparent replay of the peeked bytes.
 //! @encodes tls_listener::TlsListener::extract_client_random
-//! @encodes tls_listener::PrebufferedTcpStream::poll_read
 //! @encodes tls_parser::parse_tls_plaintext (third-party, executed for real)
-//! @assume the TcpStream inside PrebufferedTcpStream is fabricated, uninitialised storage: any access to it while peeked bytes remain would be reported by CBMC as an invalid dereference
-//! @assume the read loop over the real socket, the 16 KiB cap and the rustls handshake are outside the claim; by induction over poll_read calls the TLS stack sees the peeked bytes exactly once and in order before any socket byte
+//! @assume PrebufferedTcpStream::poll_read (the transparent replay of the peeked bytes) is NOT encoded: its fall-through branch polls a tokio::net::TcpStream, and any harness from which tokio's runtime context is reachable makes the Kani compiler crash (kani-compiler/src/intrinsics.rs:243); the read loop over the real socket, the 16 KiB cap, the rustls handshake and QUIC are outside the claim as well
 use super::*;
 use crate::verif_env::{noop_waker, fmt_format_stub};
 use std::mem::{ManuallyDrop, MaybeUninit};
-
-fn replay<const P: usize, const C: usize>() {
-    let pre: [u8; P] = kani::any();
-    let pos: usize = kani::any();
-    kani::assume(pos < P);
-    let mut store = ManuallyDrop::new(pre);
-    let prebuffer = unsafe { Vec::from_raw_parts(store.as_mut_ptr(), P, P) };
-    let mut s = ManuallyDrop::new(MaybeUninit::<PrebufferedTcpStream>::uninit());
-    let stream: &mut PrebufferedTcpStream = unsafe {
-        let p = s.as_mut_ptr();
-        std::ptr::write(std::ptr::addr_of_mut!((*p).prebuffer), prebuffer);
-        std::ptr::write(std::ptr::addr_of_mut!((*p).prebuffer_pos), pos);
-        &mut *p
-    };
-    let mut out = [0u8; C];
-    let mut rb = ReadBuf::new(&mut out);
-    let waker = noop_waker();
-    let mut cx = Context::from_waker(&waker);
-    let r = Pin::new(&mut *stream).poll_read(&mut cx, &mut rb);
-    assert!(matches!(r, Poll::Ready(Ok(()))), "C12.replay.ready: peeked bytes must be available immediately");
-    let avail = P - pos;
-    let n = if avail < C { avail } else { C };
-    assert!(rb.filled().len() == n, "C12.replay.count: the TLS stack must receive min(peeked bytes left, buffer space) bytes");
-    let mut i = 0;
-    while i < n {
-        assert!(rb.filled()[i] == pre[pos + i], "C12.replay.bytes: peeked bytes must be replayed unchanged and in order");
-        i += 1;
-    }
-    assert!(stream.prebuffer_pos == pos + n, "C12.replay.pos: replay position must advance by exactly the bytes handed over (none lost, none duplicated)");
-    kani::cover!(n < avail, "C12.cover.replay_partial");
-    kani::cover!(n == avail, "C12.cover.replay_rest");
-    std::mem::forget(r);
-}
-
-/*@gen
-{"name": "c12_prebuffer_replay_pre{0}_cap{1}", "call": "replay::<{0}, {1}>()", "unwind": 12, "stubs": [], "core": true,
- "bound": "{0} peeked bytes (symbolic), replay position symbolic in 0..{0}, read buffer of {1} bytes",
- "desc": "poll_read hands over exactly the next min(left, space) peeked bytes, advances by that amount and does not touch the socket while peeked bytes remain",
- "encodes": ["tls_listener::PrebufferedTcpStream::poll_read"],
- "quick": "[(4,2),(4,4),(4,8),(1,1)]", "thorough": "[(8,3),(8,8),(3,16)]"}
-@*/
 
 /// A minimal TLS 1.2-style ClientHello record (no extensions): 50 bytes.
 fn hello(random: &[u8; 32]) -> [u8; 50] {
@@ -78,7 +35,7 @@ fn hello(random: &[u8; 32]) -> [u8; 50] {
     d
 }
 
-// @harness tier=quick core=yes bound="a 50-byte ClientHello record (no session id, one cipher suite, no extensions) with a symbolic 32-byte random"
+// @harness tier=thorough core=no bound="a 50-byte ClientHello record (no session id, one cipher suite, no extensions) with a symbolic 32-byte random"
 // @desc the extracted client random is exactly bytes 11..43 of the handshake record
 // @encodes tls_listener::TlsListener::extract_client_random
 #[kani::proof]
